@@ -222,6 +222,7 @@ fn main() -> ExitCode {
                     if i % n != k || i < from {
                         continue;
                     }
+                    vh_harness::hang::begin_program();
                     vh_harness::hang::set_label(&format!("{i} {}", path.display()));
                     let result =
                         run_file(path).and_then(|t| std::fs::write(path.with_extension("itrace"), t));
